@@ -219,11 +219,16 @@ func (s *Stream) WriteRtpPacket(packet *rtp.Packet) error {
 
 	atomic.AddUint64(&s.size, uint64(packet.Size()))
 
-	s.joinLock.Lock()
-	keyframe := s.cache.CachePack(packet)
-	verifPoint("publish.cached", s)
-	s.consumptions.SendToAll(packet, keyframe)
-	s.joinLock.Unlock()
+	func() {
+		// deferred: a panic raised while classifying or queueing a packet must not
+		// leave the lock held, or the clean-up that follows (Unregist -> close)
+		// would wait for it for ever
+		s.joinLock.Lock()
+		defer s.joinLock.Unlock()
+		keyframe := s.cache.CachePack(packet)
+		verifPoint("publish.cached", s)
+		s.consumptions.SendToAll(packet, keyframe)
+	}()
 
 	s.rtpDemuxer.WriteRtpPacket(packet)
 	return nil
@@ -249,11 +254,13 @@ func (s *Stream) WriteFlvTag(tag *flv.Tag) error {
 		return statusErrors[status]
 	}
 
-	s.flvJoinLock.Lock()
-	keyframe := s.flvCache.CachePack(tag)
-	verifPoint("flvpublish.cached", s)
-	s.flvConsumptions.SendToAll(tag, keyframe)
-	s.flvJoinLock.Unlock()
+	func() {
+		s.flvJoinLock.Lock()
+		defer s.flvJoinLock.Unlock()
+		keyframe := s.flvCache.CachePack(tag)
+		verifPoint("flvpublish.cached", s)
+		s.flvConsumptions.SendToAll(tag, keyframe)
+	}()
 	return nil
 }
 
